@@ -215,7 +215,7 @@ def judge(res, code, cfg, feats, variants, d=None, rng=None):
 def shard(shard_no, nshards, seed, tier, extra):
     res = common.Result()
     rng = common.rng_for(seed, "c02", shard_no)
-    n = 60 if tier == "quick" else 3000
+    n = 44 if tier == "quick" else 1200
     nat, seeds, modes = (4, 4, 4) if tier == "quick" else (10, 10, 12)
     d = common.Driver("rel", shim=True)
     corpus = sorted(glob.glob(os.path.join(common.VERIF, "corpus", "*.hex")))
